@@ -9,6 +9,8 @@ import (
 	"go/token"
 	"go/types"
 	"strings"
+
+	"golang.org/x/tools/go/ssa"
 )
 
 type externalFn func(fr *frame, args []value) value
@@ -47,6 +49,13 @@ func init() {
 		zz + "MapOrder":        func(fr *frame, a []value) value { fr.i.x.mapReverse = a[0].(bool); return nil },
 		zz + "Register":        func(fr *frame, a []value) value { return nil },
 		zz + "RunUntilBlocked": extRunUntilBlocked,
+		zz + "OnBlock": func(fr *frame, a []value) value {
+			fr.i.onBlock = a[0]
+			if f, ok := a[0].(*ssa.Function); ok && f == nil {
+				fr.i.onBlock = nil
+			}
+			return nil
+		},
 		zz + "Spawned":         func(fr *frame, a []value) value { return len(fr.i.spawned) },
 		zz + "RunSpawned":      extRunSpawned,
 		zz + "Settle":          extSettle,
@@ -72,6 +81,16 @@ func init() {
 		"(*sync.WaitGroup).Done":  func(fr *frame, a []value) value { return nil },
 		"(*sync.WaitGroup).Wait":  func(fr *frame, a []value) value { return nil },
 		"(*sync.Once).Do":         extOnceDo,
+		// sync.Pool: never retains anything
+		"(*sync.Pool).Put": func(fr *frame, a []value) value { return nil },
+		"(*sync.Pool).Get": func(fr *frame, a []value) value {
+			pool := (*a[0].(*value)).(structure)
+			newFn := pool[len(pool)-1]
+			if f, ok := newFn.(*ssa.Function); ok && f == nil {
+				return iface{}
+			}
+			return call(fr.i, fr, token.NoPos, newFn, nil)
+		},
 
 		// ---- strings / bytes intrinsics
 		"(*strings.Builder).String":        extBuilderString,
